@@ -154,6 +154,11 @@ def run_case(case):
         kind = KINDS[g.integers(len(KINDS))]
         spread = float(10 ** g.uniform(-3, 9))
         ll = smcrun.gen_weights(g, n, kind, spread)
+        if n >= 3 and g.random() < 0.2:
+            # likelihood exactly zero on part of the support: such particles simply have zero weight at every temperature
+            ll[g.choice(n, size=int(g.integers(1, n // 2 + 1)), replace=False)] = -np.inf
+            counters["runs_with_zero_likelihood_particles"] += 1
+            kind += "+neginf"
         dtn = str(g.choice(["float64", "float64", "float32"]))
         sc = smcrun.Scripted(ll, lq=g.normal(0, 1, n), xp_name=xpn, dtype=dtn)
         where = f"scripted kind={kind} spread={spread:.3g} N={n} xp={xpn} {dtn} sampler={sampler}"
